@@ -80,10 +80,14 @@ Fixpoint merge_from (active : Z * Z) (l : list (Z * Z)) : list (Z * Z) :=
 Definition merge (l : list (Z * Z)) : list (Z * Z) :=
   match l with [] => [] | a :: l' => merge_from a l' end.
 (* shrink: if the last free block ends at next_mem, drop it and lower next_mem *)
-Definition shrink (nm : Z) (l : list (Z * Z)) : Z * list (Z * Z) :=
-  match rev l with
-  | [] => (nm, l)
-  | (p, s) :: r => if p + s =? nm then (p, rev r) else (nm, l)
+Fixpoint shrink (nm : Z) (l : list (Z * Z)) : Z * list (Z * Z) :=
+  match l with
+  | [] => (nm, [])
+  | b :: l' =>
+      match l' with
+      | [] => if fst b + snd b =? nm then (fst b, []) else (nm, [b])
+      | _ => let '(nm', r) := shrink nm l' in (nm', b :: r)
+      end
   end.
 
 Definition legacy_deallocate (st : lstate) (pos size : Z) : option lstate :=
@@ -99,6 +103,27 @@ Fixpoint nth_remove {A} (l : list A) (k : nat) : option (A * list A) :=
   | x :: l', O => Some (x, l')
   | x :: l', S k' => match nth_remove l' k' with Some (y, r) => Some (y, x :: r) | None => None end
   end.
+
+(* ---- operation sequences (theorem legacy_alloc_inv): state = allocator state + live blocks ---- *)
+Inductive lop := OAlloc (size : Z) | OFree (k : nat).
+Definition lstep (s : lstate * list (Z * Z)) (o : lop) : option (lstate * list (Z * Z)) :=
+  let '(st, live) := s in
+  match o with
+  | OAlloc size =>
+      match legacy_allocate st size with
+      | LOk p st' => Some (st', live ++ [(p, size)])
+      | LErr => None
+      end
+  | OFree k =>
+      match nth_remove live k with
+      | Some ((p, sz), live') =>
+          match legacy_deallocate st p sz with Some st' => Some (st', live') | None => None end
+      | None => None
+      end
+  end.
+Definition lrun (ops : list lop) (s : lstate * list (Z * Z)) : option (lstate * list (Z * Z)) :=
+  fold_left (fun acc o => match acc with Some s => lstep s o | None => None end) ops (Some s).
+Definition linit (start : Z) : lstate * list (Z * Z) := (mkL start start [], []).
 
 (* trace: for allocate the returned position, for deallocate next_mem afterwards; -1 on error *)
 Fixpoint run_ops (ops : list (Z * Z)) (st : lstate) (live : list (Z * Z)) : list Z :=
